@@ -122,7 +122,7 @@ int main() {
                << sqi(pos.get_castling_square(Side::White, MoveType::qsc)) << ' '
                << sqi(pos.get_castling_square(Side::Black, MoveType::ksc)) << ' '
                << sqi(pos.get_castling_square(Side::Black, MoveType::qsc));
-            os << ' ' << sqi(pos.ep()) << ' ' << pos.halfmoves() << ' ' << pos.fullmoves();
+            os << ' ' << sqi(pos.ep()) << ' ' << static_cast<unsigned long long>(pos.halfmoves()) << ' ' << static_cast<unsigned long long>(pos.fullmoves());
             os << ' ' << hex(pos.hash()) << ' ' << hex(pos.calculate_hash()) << ' ' << pos.valid() << ' '
                << pos.history().size();
         } else if (cmd == "pieceon") {
@@ -133,7 +133,7 @@ int main() {
             os << "H " << h.size();
             for (std::size_t i = h.size(); i-- > 0;) {  // newest first
                 os << " | " << hex(h[i].hash) << ' ' << code(h[i].move) << ' ' << sqi(h[i].ep) << ' '
-                   << h[i].halfmove_clock << ' ' << h[i].castling[0] << h[i].castling[1] << h[i].castling[2]
+                   << static_cast<unsigned long long>(h[i].halfmove_clock) << ' ' << h[i].castling[0] << h[i].castling[1] << h[i].castling[2]
                    << h[i].castling[3];
             }
         } else if (cmd == "fen") {
